@@ -416,6 +416,15 @@ def pinned_loops():
     return PINNED_LOOPS
 
 
+def is_pure_hint(payload):
+    """an inserted block that only helps the solver: `proof { lemma..(..); }` / `broadcast use ..;` lines without assertion,
+    label, ghost variable or assume"""
+    txt = '\n'.join(payload or [])
+    if re.search(r'//\s*\[', txt) or re.search(r'\b(assert|assume|let\s+ghost|ghost|admit)\b', txt) or '@=' in txt or ' = ' in txt:
+        return False
+    return bool(txt.strip())
+
+
 class Edit:
     def __init__(self, start, end, text, tag):
         self.start = start
@@ -770,6 +779,14 @@ def weave_extract(ub, ex, rf, repo_root):
         # pinned one) does not stop the check: the annotation is dropped and verification is attempted with the rest
         if deletion_only and str(e).startswith('lost anchor') and d[0] in ('insert', 'insert-each', 'loop', 'closure', 'cut', 'rewrite'):
             rec['lost_anchors'].append('%s: %s' % (d[0], e))
+            continue
+        # a lost anchor of a pure PROOF HINT (a closure conversion, or an inserted block that carries no labelled obligation and
+        # no ghost bookkeeping: lemma calls / broadcast use only) on a function that was restructured: the hint is dropped and
+        # the function is marked degraded. If Verus still discharges every obligation of the function the edit is decided
+        # (harmless); a failure inside a degraded function is UNDECIDED (exit 2), never a VIOLATION: without the hints a
+        # failed proof says nothing.
+        if str(e).startswith('lost anchor') and (d[0] == 'closure' or (d[0] == 'insert' and is_pure_hint(d[2]))):
+            rec.setdefault('degraded', []).append('%s: %s' % (d[0], e))
             continue
         raise
 
